@@ -3,6 +3,7 @@
 from __future__ import unicode_literals
 
 import re
+import unicodedata
 
 from mc.refmodel import parser as R2
 from mc.refmodel import tree as R3
@@ -159,8 +160,16 @@ def judge_c03(text, out, ref):
             ctx = 'end: %s' % ' '.join(tclass(t) for t in toks[-2:])
         else:
             ctx = ctx_at(text, ref, off)
-        return ('C03|impl-rejects|%s|%s' % (msg_kind(out.msg), ctx),
-                out.msg)
+        mk = msg_kind(out.msg)
+        if mk == 'Illegal-character' and off is not None and off < len(text):
+            # which kind of character: findings about escapes / joiners must
+            # not cover a letter missing from the identifier tables
+            ch = text[off]
+            mk += ':' + ('backslash' if ch == '\\' else
+                         'joiner' if ch in '\u200c\u200d' else
+                         'ascii' if ord(ch) < 128 else
+                         'cat=' + unicodedata.category(ch))
+        return ('C03|impl-rejects|%s|%s' % (mk, ctx), out.msg)
     # reference rejects
     if out.kind == 'accept':
         ctx = ctx_at(text, ref, ref.offset) if ref.tok is not None else \
